@@ -160,10 +160,13 @@ def one(args):
     rc, res, out, err = sc.run_aligned(text, timeout=20, trace=tr)
     ops, states = (None, "no trace")
     contract = []
+    tev = ""
     if os.path.exists(tr):
         ops, states = ops_from_trace(tr)
         contract = engine_contract_violations(tr)
         contract += [(0, -1, g) for g in frame_guard_violations(tr)]
+        import C01
+        tev, tnq = C01.trace_events(tr)
         os.remove(tr)
     # fresh runs of each check on the flattened active assertions
     ans = answercheck.answers_of(text, res, out) if rc in (0, 1) else None
@@ -178,7 +181,7 @@ def one(args):
     # the same script without get-* queries
     st = strip_queries(text)
     rc3, out3, err3 = vlib.run_opensmt(st, timeout=20) if st != text else (rc, None, None)
-    return text, meta, rc, out, ops, states, ans, fresh, out3, contract
+    return text, meta, rc, out, ops, states, ans, fresh, out3, contract, tev
 
 
 def run(ctx):
@@ -192,7 +195,7 @@ def run(ctx):
     # 1. exact bookkeeping correspondence (model replay of the traced op sequences)
     lines, keep = [], []
     for r in results:
-        text, meta, rc, out, ops, states, ans, fresh, out3, contract = r
+        text, meta, rc, out, ops, states, ans, fresh, out3, contract, tev = r
         if ops is None:
             ctx.tie_broken("ms-trace", str(states), dict(script=text))
             continue
@@ -206,8 +209,27 @@ def run(ctx):
     if rcm != 0 or len(mlines) < len(keep):
         ctx.tie_broken("frames-model-run", "rc=%s lines=%d/%d %s" % (rcm, len(mlines), len(keep), outm[-300:]))
         return
+    # engine contract by certificate: every unsat answer reached by solving / clause insertion must be refutable by the
+    # extracted replay using the activation of frames 0..k only (k = the frame from which the answer flags unsat)
+    texe, tlog = vlib.build_extracted("trace")
+    if texe:
+        with_q = [r for r in keep if ";q" in r[10] or r[10].endswith("q")]
+        if with_q:
+            rct, outt = vlib.sh([texe], input="\n".join(r[10] for r in with_q) + "\n", timeout=900)
+            tl = outt.split("\n")
+            if rct == 0 and len(tl) >= len(with_q):
+                for r, l in zip(with_q, tl):
+                    ctx.count("engine-contract-certificates", len(l.split()))
+                    if "FAIL" in l.split():
+                        ctx.tie_broken("engine-contract:prefix-refutation",
+                                       "an unsat answer is not refutable from the clauses seen with the activation of frames 0..k only (k = frame the answer flags from)",
+                                       dict(script=r[0], verdicts=l))
+            else:
+                ctx.tie_broken("trace-driver", outt[-300:])
+    else:
+        ctx.tie_broken("extraction-trace", tlog)
     for r, ml in zip(keep, mlines):
-        text, meta, rc, out, ops, states, ans, fresh, out3, contract = r
+        text, meta, rc, out, ops, states, ans, fresh, out3, contract, tev = r
         for (kk, cfr, idx) in contract:
             if cfr == -1:
                 ctx.tie_broken("frame-guard-discipline", str(idx), dict(script=text))
